@@ -160,6 +160,8 @@ struct Task
 	DataDesc data ;
 	std::map<int, std::vector<uint64_t>> ref ;
 	bool modified_since_open = false ;
+	int64_t emb_k = -1, emb_len = 0 ;
+	SimFileP emb_file ;
 	bool done () const { return !ops || pc >= ops->size () ; }
 } ;
 
@@ -286,6 +288,25 @@ struct Exec
 		{	std::string p = "/sim/cwd/" + t.store ;
 			t.sf = sf_open (p.c_str (), t.mode, &t.info) ;
 		}
+		else if (route == "embed")
+		{	// descriptor positioned at the start of a sound file embedded at offset k inside junk(k) || sound || junk(t)
+			os.in_lib = false ;
+			int64_t k = op.geti ("emb_k", 123), tl = op.geti ("emb_t", 17) ;
+			SimFileP cf = os.file ("/sim/cwd/" + t.store + ".emb", true) ;
+			cf->data.clear () ;
+			for (int64_t b = 0 ; b < k ; b++) cf->data.push_back ((uint8_t) mix3 (key, 0xe3b, (uint64_t) b)) ;
+			if (t.mode == SFM_READ)
+			{	cf->data.insert (cf->data.end (), file->data.begin (), file->data.end ()) ;
+				for (int64_t b = 0 ; b < tl ; b++) cf->data.push_back ((uint8_t) mix3 (key, 0xe3c, (uint64_t) b)) ;
+			}
+			cf->min_read = cf->max_read_end = cf->min_write = cf->max_write_end = -1 ;
+			t.emb_k = k ; t.emb_len = (int64_t) file->data.size () ; t.emb_file = cf ;
+			t.fd = os.open_fd (cf, t.mode == SFM_READ ? O_RDONLY : O_RDWR, false) ;
+			os.fds [t.fd].off = k ;
+			t.close_desc = op.geti ("close_desc", 1) != 0 ;
+			os.in_lib = true ;
+			t.sf = sf_open_fd (t.fd, t.mode, &t.info, t.close_desc ? 1 : 0) ;
+		}
 		else if (route == "fifo")
 		{	// non-seekable pipe preloaded with the store's bytes, delivered under a seeded chunking schedule
 			os.in_lib = false ;
@@ -323,6 +344,7 @@ struct Exec
 			{	check_fd_ownership (t, true) ;
 				t.fd = -1 ;
 			}
+			t.emb_file = nullptr ; t.emb_k = -1 ;
 			if (expect == "ok" && !t.faulted && !m.corrupted)
 			{	std::string disc = t.mode == SFM_READ ? "read" : t.mode == SFM_WRITE ? "write" : "rdwr" ;
 				if (t.mode == SFM_READ && m.written && m.N == 0) disc = "read_empty" ;
@@ -339,7 +361,7 @@ struct Exec
 		t.ref.clear () ;
 		t.modified_since_open = false ;
 		Digest d = digest (t) ;
-		t.seekable = t.info.seekable != 0 ;
+		t.seekable = d.ok ? d.v [DG_SEEKABLE] != 0 : t.info.seekable != 0 ;		// sf_open zeroes SF_INFO.seekable in write mode
 		t.ch = t.info.channels ;
 		t.rd = 0 ;
 		t.frames = t.mode == SFM_WRITE ? 0 : t.info.frames ;
@@ -425,6 +447,25 @@ struct Exec
 		if (rc != 0 && !t.faulted && !t.io_failed) viol (t, "close.ret", "-", "sf_close returned non-zero although every underlying operation succeeded") ;
 		if (t.vio) { delete t.vio ; t.vio = nullptr ; }
 		if (t.fd >= 0) { check_fd_ownership (t, false) ; t.fd = -1 ; }
+		if (t.emb_file)
+		{	SimFile &cf = *t.emb_file ;
+			char b [200] ;
+			if (t.mode == SFM_READ)
+			{	if (cf.min_read >= 0 && (cf.min_read < t.emb_k || cf.max_read_end > t.emb_k + t.emb_len) && !t.faulted)
+				{	snprintf (b, sizeof (b), "embedded read touched bytes [%lld, %lld) of the container, the sound occupies [%lld, %lld)", (long long) cf.min_read, (long long) cf.max_read_end, (long long) t.emb_k, (long long) (t.emb_k + t.emb_len)) ;
+					viol (t, "embed.outside_read", cf.min_read < t.emb_k ? "before" : "after", b) ; }
+			}
+			else
+			{	bool touched = false ;
+				for (int64_t q = 0 ; q < t.emb_k && q < (int64_t) cf.data.size () ; q++) if (cf.data [q] != (uint8_t) mix3 (key, 0xe3b, (uint64_t) q)) { touched = true ; break ; }
+				if ((int64_t) cf.data.size () < t.emb_k) touched = true ;
+				if (touched && !t.faulted) viol (t, "embed.prefix_touched", "-", "embedded write changed bytes that precede the sound file in the container") ;
+				// the sound file is what follows the existing bytes
+				SimFileP f = store_file (t.store) ;
+				f->data.assign (cf.data.begin () + std::min<int64_t> (t.emb_k, (int64_t) cf.data.size ()), cf.data.end ()) ;
+			}
+			t.emb_file = nullptr ; t.emb_k = -1 ;
+		}
 		StoreModel &m = sm [t.store] ;
 		if (t.mode != SFM_READ)
 		{	m.N = t.frames ;
@@ -701,6 +742,7 @@ struct Exec
 		bool flag_bad = (flag == SFM_WRITE && t.mode == SFM_READ) || (flag == SFM_READ && t.mode == SFM_WRITE) ;
 		bool whence_bad = whence < 0 || whence > 2 ;
 		if (got == -1 && r.err == 0) { viol (t, "seek.fail_no_error", "-", "sf_seek returned -1 with sf_error==0") ; return ; }
+		if (got >= 0 && r.err != 0 && !t.faulted && opts.strict) { viol (t, "success.error", "seek", "successful seek left sf_error != 0") ; return ; }
 		if (!opts.strict || t.faulted || !t.pos_known) { if (got < -1) viol (t, "seek.ret", "lt_minus1", "sf_seek returned a value below -1") ; if (got >= 0) sync_pos (t, d1) ; return ; }
 		if (!t.seekable || flag_bad || whence_bad)
 		{	if (got != -1) { snprintf (b, sizeof (b), "seek that must fail (seekable=%d flag=%d whence=%d) returned %lld", t.seekable, flag, whence, (long long) got) ; viol (t, "seek.invalid_accepted", "-", b) ; }
@@ -776,7 +818,7 @@ struct Exec
 		else if (id == "truncate")
 		{	sf_count_t v = arg ;
 			rc = sf_command (t.sf, SFC_FILE_TRUNCATE, &v, sizeof (v)) ;
-			if (rc == 0 && !t.faulted) { t.frames = arg ; if (t.rd > arg) t.rd = arg ; if (t.wr > arg) t.wr = arg ;
+			if (rc == 0 && !t.faulted) { t.frames = arg ; if (t.mode == SFM_RDWR) { t.rd = arg ; t.wr = arg ; } else t.wr = arg ;
 				StoreModel &m = sm [t.store] ;
 				if (m.model_on && (int64_t) m.val.size () > arg * t.ch) { m.val.resize ((size_t) (arg * t.ch)) ; m.known.resize ((size_t) (arg * t.ch)) ; }
 				probe ("truncate_ok") ; }
@@ -784,6 +826,13 @@ struct Exec
 		else { os.end_op () ; r.skipped = true ; return ; }
 		r.ret = rc ; r.err = sf_error (t.sf) ;
 		after_call (t, r) ;
+		if (!t.stop && !t.faulted && opts.strict && id == "truncate" && rc == 0)
+		{	Digest d = digest (t) ;
+			if (d.ok && (d.v [DG_FRAMES] != t.frames || (t.mode == SFM_RDWR && d.v [DG_READ_CURRENT] != t.rd) || d.v [DG_WRITE_CURRENT] != t.wr))
+			{	char b [200] ; snprintf (b, sizeof (b), "after truncate to %lld: frames %lld read %lld write %lld", (long long) arg, (long long) d.v [DG_FRAMES], (long long) d.v [DG_READ_CURRENT], (long long) d.v [DG_WRITE_CURRENT]) ;
+				viol (t, "truncate.state", "-", b) ; }
+		}
+		if (!t.stop && !t.faulted && opts.strict && id == "truncate" && rc != 0 && t.route != "vio") viol (t, "truncate.failed", "-", "SFC_FILE_TRUNCATE failed on the descriptor route") ;
 	}
 
 	void op_clock (Task &, const J &op, Rec &r)
@@ -1339,6 +1388,174 @@ struct Exec
 	}
 	std::map<int, std::vector<uint64_t>> final_decodes ;
 
+	// ------------------------------------------------------------------------------------------
+	// invalid calls (C09): documented failure value, error recorded, state and store untouched
+
+	struct Snap { int64_t v [DG_COUNT] ; bool ok ; uint64_t store ; } ;
+	Snap snap (Task &t)
+	{	Snap s ; Digest d = digest (t) ; s.ok = d.ok ; memcpy (s.v, d.v, sizeof (s.v)) ;
+		auto it = os.ns.find ("/sim/cwd/" + t.store) ;
+		s.store = it != os.ns.end () ? it->second->hash () : 0 ;
+		return s ;
+	}
+	std::string snap_diff (const Snap &a, const Snap &b)
+	{	static const int fields [] = { DG_READ_CURRENT, DG_WRITE_CURRENT, DG_FRAMES, DG_CHANNELS, DG_SAMPLERATE, DG_FORMAT, DG_SEEKABLE, DG_NORM_FLOAT, DG_NORM_DOUBLE,
+			DG_ADD_CLIPPING, DG_AUTO_HEADER, DG_STR_COUNT, DG_STR_HASH, DG_RCHUNKS_USED, DG_WCHUNKS_USED, DG_PEAK_HASH, DG_BEXT_HASH, DG_CART_HASH, DG_CUES_HASH, DG_INSTR_HASH,
+			DG_CHANMAP_HASH, DG_DATAOFFSET, DG_DATALENGTH, DG_HAVE_WRITTEN } ;
+		static const char *names [] = { "read_position", "write_position", "frames", "channels", "samplerate", "format", "seekable", "norm_float", "norm_double",
+			"clipping", "auto_header", "string_count", "strings", "read_chunks", "write_chunks", "peak", "bext", "cart", "cues", "instrument", "channel_map", "dataoffset", "datalength", "have_written" } ;
+		if (!a.ok || !b.ok) return "" ;
+		for (size_t k = 0 ; k < sizeof (fields) / sizeof (fields [0]) ; k++)
+			if (a.v [fields [k]] != b.v [fields [k]]) return names [k] ;
+		if (a.store != b.store) return "store_bytes" ;
+		return "" ;
+	}
+
+	void op_bad (Task &t, const J &op, Rec &r)
+	{	if (!t.sf) { r.skipped = true ; return ; }
+		std::string kind = op.gets ("kind") ;
+		int T = stype_from (op.gets ("T", plan.at ("cfg").gets ("T", "short"))) ; if (T == T_RAW) T = T_SHORT ;
+		int ch = t.ch > 0 ? t.ch : 1 ;
+		bool applicable = true ;
+		int64_t ret = 0 ; bool expect_zero = true ; bool ret_is_code = false ; int64_t expect_ret = 0 ;
+		// decide applicability before touching the library
+		if (kind == "read_wrong_mode") applicable = t.mode == SFM_WRITE ;
+		else if (kind == "write_wrong_mode") applicable = t.mode == SFM_READ ;
+		else if (kind == "read_misaligned") applicable = t.mode != SFM_WRITE && ch >= 2 ;
+		else if (kind == "write_misaligned") applicable = t.mode != SFM_READ && ch >= 2 ;
+		else if (kind == "read_negative") applicable = t.mode != SFM_WRITE ;
+		else if (kind == "write_negative") applicable = t.mode != SFM_READ ;
+		else if (kind == "seek_wrong_flag") applicable = t.mode != SFM_RDWR && t.seekable ;
+		else if (kind == "seek_out_of_range" || kind == "seek_bad_whence") applicable = t.seekable ;
+		else if (kind == "seek_nonseekable") applicable = !t.seekable ;
+		else if (kind == "setstr_read_handle") applicable = t.mode == SFM_READ ;
+		else if (kind == "setstr_bad_type" || kind == "setstr_null") applicable = t.mode != SFM_READ ;
+		else if (kind == "cmd_after_data") applicable = t.mode != SFM_READ && t.wr > 0 && t.fmt && (t.fmt->is_float || t.fmt->is_double) && peak_capable (*t.fmt) ;
+		if (!applicable) { r.skipped = true ; return ; }
+		Snap s0 = snap (t) ;
+		int64_t n = op.geti ("n", 4) ; if (n < 1) n = 1 ;
+		size_t bytes = (size_t) (n * ch + ch) * 8 ;
+		uint8_t *buf = (uint8_t *) malloc (bytes) ; memset (buf, 0x5A, bytes) ;
+		uint64_t bh = fnv1a (buf, bytes) ;
+		r.api = "bad:" + kind ;
+		os.begin_op (t.id, (int) t.pc, "sf_bad_call", budget_for (t, (int64_t) bytes)) ;
+		GUARD (t, r) ;
+		auto rd = [&] (int64_t items, bool fr) -> int64_t
+		{	switch (T) { case T_SHORT : return fr ? sf_readf_short (t.sf, (short *) buf, items) : sf_read_short (t.sf, (short *) buf, items) ;
+				case T_INT : return fr ? sf_readf_int (t.sf, (int *) buf, items) : sf_read_int (t.sf, (int *) buf, items) ;
+				case T_FLOAT : return fr ? sf_readf_float (t.sf, (float *) buf, items) : sf_read_float (t.sf, (float *) buf, items) ;
+				default : return fr ? sf_readf_double (t.sf, (double *) buf, items) : sf_read_double (t.sf, (double *) buf, items) ; } } ;
+		auto wr = [&] (int64_t items, bool fr) -> int64_t
+		{	switch (T) { case T_SHORT : return fr ? sf_writef_short (t.sf, (short *) buf, items) : sf_write_short (t.sf, (short *) buf, items) ;
+				case T_INT : return fr ? sf_writef_int (t.sf, (int *) buf, items) : sf_write_int (t.sf, (int *) buf, items) ;
+				case T_FLOAT : return fr ? sf_writef_float (t.sf, (float *) buf, items) : sf_write_float (t.sf, (float *) buf, items) ;
+				default : return fr ? sf_writef_double (t.sf, (double *) buf, items) : sf_write_double (t.sf, (double *) buf, items) ; } } ;
+		bool fr = op.geti ("fr", 0) != 0 ;
+		if (kind == "read_wrong_mode") ret = rd (fr ? n : n * ch, fr) ;
+		else if (kind == "write_wrong_mode") ret = wr (fr ? n : n * ch, fr) ;
+		else if (kind == "read_misaligned") ret = rd (n * ch + 1, false) ;
+		else if (kind == "write_misaligned") ret = wr (n * ch + 1, false) ;
+		else if (kind == "read_negative") ret = rd (-n, fr) ;
+		else if (kind == "write_negative") ret = wr (-n, fr) ;
+		else if (kind == "seek_bad_whence") { ret = sf_seek (t.sf, 0, (int) op.geti ("whence", 7)) ; expect_zero = false ; expect_ret = -1 ; }
+		else if (kind == "seek_wrong_flag") { ret = sf_seek (t.sf, 0, SEEK_SET | (t.mode == SFM_READ ? SFM_WRITE : SFM_READ)) ; expect_zero = false ; expect_ret = -1 ; }
+		else if (kind == "seek_out_of_range")
+		{	int64_t off = (t.mode == SFM_READ && op.geti ("beyond", 0)) ? t.frames + 1 + op.geti ("n", 1) : -1 - op.geti ("n", 0) ;
+			ret = sf_seek (t.sf, off, SEEK_SET) ; expect_zero = false ; expect_ret = -1 ; }
+		else if (kind == "seek_nonseekable") { ret = sf_seek (t.sf, 0, SEEK_SET) ; expect_zero = false ; expect_ret = -1 ; }
+		else if (kind == "cmd_unknown") { int ids [] = { 0x0FFF, 0x7FFFFFFF, -1, 0x1234 } ; ret = sf_command (t.sf, ids [op.geti ("n", 0) & 3], nullptr, 0) ; ret_is_code = true ; }
+		else if (kind == "cmd_bad_size")
+		{	int cmds [] = { SFC_GET_CURRENT_SF_INFO, SFC_CALC_SIGNAL_MAX, SFC_GET_CUE_COUNT, SFC_GET_INSTRUMENT, SFC_SET_CHANNEL_MAP_INFO, SFC_GET_EMBED_FILE_INFO } ;
+			ret = sf_command (t.sf, cmds [op.geti ("n", 0) % 6], op.geti ("null", 0) ? nullptr : buf, 3) ; ret_is_code = true ; }
+		else if (kind == "cmd_after_data") { ret = sf_command (t.sf, SFC_SET_ADD_PEAK_CHUNK, nullptr, SF_TRUE) ; }
+		else if (kind == "setstr_read_handle") { ret = sf_set_string (t.sf, SF_STR_TITLE, "title") ; ret_is_code = true ; }
+		else if (kind == "setstr_bad_type") { ret = sf_set_string (t.sf, 0x77, "text") ; ret_is_code = true ; }
+		else if (kind == "setstr_null") { ret = sf_set_string (t.sf, SF_STR_TITLE, nullptr) ; ret_is_code = true ; }
+		else if (kind == "setchunk_null") { ret = sf_set_chunk (t.sf, nullptr) ; ret_is_code = true ; }
+		else { os.end_op () ; free (buf) ; r.skipped = true ; return ; }
+		r.ret = ret ; r.err = sf_error (t.sf) ;
+		after_call (t, r) ;
+		probe (("bad:" + kind).c_str ()) ;
+		char b [256] ;
+		do
+		{	if (t.stop || t.faulted) break ;
+			if (kind == "cmd_unknown") { /* container handlers may ignore ids they do not know: only purity is asserted */ }
+			else if (ret_is_code)
+			{	if (ret == 0 && r.err == 0) { snprintf (b, sizeof (b), "%s returned 0 and recorded no error", kind.c_str ()) ; viol (t, "bad.accepted", kind, b) ; break ; }
+			}
+			else
+			{	if (ret != (expect_zero ? 0 : expect_ret)) { snprintf (b, sizeof (b), "%s returned %lld, documented failure value is %lld", kind.c_str (), (long long) ret, (long long) (expect_zero ? 0 : expect_ret)) ; viol (t, "bad.ret", kind, b) ; break ; }
+				if (r.err == 0) { snprintf (b, sizeof (b), "%s failed without recording an error", kind.c_str ()) ; viol (t, "bad.no_error", kind, b) ; break ; }
+			}
+			int code = r.err ? r.err : (int) ret ;
+			if (kind == "cmd_unknown" && code == 0) code = SF_ERR_SYSTEM ;
+			const char *txt = sf_error_number (code) ;
+			if (!txt || !*txt || strstr (txt, "No error defined") || strstr (txt, "No Error"))
+			{	snprintf (b, sizeof (b), "%s: error %d has no usable text ('%s')", kind.c_str (), code, txt ? txt : "(null)") ; viol (t, "bad.error_text", kind, b) ; break ; }
+			Snap s1 = snap (t) ;
+			std::string d = snap_diff (s0, s1) ;
+			if (!d.empty ()) { snprintf (b, sizeof (b), "%s changed %s", kind.c_str (), d.c_str ()) ; viol (t, d == "store_bytes" ? "bad.store_changed" : "bad.state_changed", kind + ":" + d, b) ; break ; }
+			if (kind.compare (0, 5, "write") == 0 && fnv1a (buf, bytes) != bh) { viol (t, "bad.state_changed", kind + ":caller_buffer", "failed write modified the caller's buffer") ; break ; }
+		} while (0) ;
+		free (buf) ;
+	}
+
+	// failing opens (C09.open.fail): NULL, global error, nothing left behind (the audit runs at the end of the plan)
+	void op_badopen (Task &t, const J &op, Rec &r)
+	{	if (t.sf) { Rec rc ; do_close (t, rc) ; }
+		std::string kind = op.gets ("kind") ;
+		SF_INFO info ; memset (&info, 0, sizeof (info)) ;
+		SimFileP file = store_file ("bad" + std::to_string (t.id) + ".dat") ;
+		file->data.clear () ;
+		r.api = "badopen:" + kind ;
+		SNDFILE *h = nullptr ;
+		SimVio *v = new SimVio ; v->f = file ; v->off = 0 ;
+		SF_VIRTUAL_IO vio = simos_vio () ;
+		std::string path = "/sim/cwd/bad" + std::to_string (t.id) + ".dat" ;
+		os.begin_op (t.id, (int) t.pc, "sf_open", 20000) ;
+		GUARD (t, r) ;
+		if (kind == "null_info") h = sf_open (path.c_str (), SFM_READ, nullptr) ;
+		else if (kind == "bad_mode") { info.format = SF_FORMAT_WAV | SF_FORMAT_PCM_16 ; info.channels = 1 ; info.samplerate = 8000 ; h = sf_open_virtual (&vio, 0x77, &info, v) ; }
+		else if (kind == "zero_format") { info.channels = 1 ; info.samplerate = 8000 ; h = sf_open_virtual (&vio, SFM_WRITE, &info, v) ; }
+		else if (kind == "zero_minor") { info.format = SF_FORMAT_WAV ; info.channels = 1 ; info.samplerate = 8000 ; h = sf_open_virtual (&vio, SFM_WRITE, &info, v) ; }
+		else if (kind == "invalid_format") { info.format = SF_FORMAT_WAV | SF_FORMAT_DWVW_12 ; info.channels = 1 ; info.samplerate = 8000 ; h = sf_open (path.c_str (), SFM_WRITE, &info) ; }
+		else if (kind == "zero_channels") { info.format = SF_FORMAT_WAV | SF_FORMAT_PCM_16 ; info.channels = 0 ; info.samplerate = 8000 ; h = sf_open_virtual (&vio, SFM_WRITE, &info, v) ; }
+		else if (kind == "missing_path") h = sf_open ("/sim/cwd/does-not-exist.wav", SFM_READ, &info) ;
+		else if (kind == "empty_store") h = sf_open_virtual (&vio, SFM_READ, &info, v) ;
+		else if (kind == "junk_store") { file->data.assign (64, 0x41) ; h = sf_open_virtual (&vio, SFM_READ, &info, v) ; }
+		else if (kind == "null_vio") h = sf_open_virtual (nullptr, SFM_READ, &info, v) ;
+		else if (kind == "bad_fd") { h = sf_open_fd (-1, SFM_READ, &info, 0) ; }
+		else { os.end_op () ; delete v ; r.skipped = true ; return ; }
+		r.ret = h ? 1 : 0 ; r.err = sf_error (nullptr) ;
+		after_call (t, r) ;
+		probe (("badopen:" + kind).c_str ()) ;
+		if (h)
+		{	viol (t, "badopen.accepted", kind, "open of an invalid request returned a handle") ;
+			os.in_lib = true ; sf_close (h) ; os.in_lib = false ;
+		}
+		else
+		{	if (r.err == 0) viol (t, "badopen.no_error", kind, "failed open left sf_error(NULL) at 0") ;
+			else { const char *s = sf_strerror (nullptr) ; if (!s || !*s) viol (t, "badopen.no_error", kind + ":text", "failed open has empty error text") ; }
+		}
+		delete v ;
+		t.stop = false ;
+	}
+
+	// error state of every other open handle must not change when this task made a call (C19.error.isolated)
+	std::map<int, int64_t> last_err ;
+	void check_isolation (Task &me)
+	{	for (auto &o : tasks)
+		{	if (!o.sf) { last_err.erase (o.id) ; continue ; }
+			Digest d = digest (o) ; if (!d.ok) continue ;
+			auto it = last_err.find (o.id) ;
+			if (o.id != me.id && it != last_err.end () && it->second != d.v [DG_ERROR] && !o.faulted)
+			{	char b [200] ; snprintf (b, sizeof (b), "error state of handle %d changed from %lld to %lld during a call on handle %d", o.id, (long long) it->second, (long long) d.v [DG_ERROR], me.id) ;
+				viol (o, "error.isolated", "-", b) ;
+			}
+			last_err [o.id] = d.v [DG_ERROR] ;
+		}
+	}
+
 	bool step (Task &t) ;
 	void run () ;
 } ;
@@ -1373,8 +1590,11 @@ bool Exec::step (Task &t)
 	else if (kind == "query") op_query (t, op, r) ;
 	else if (kind == "corrupt") op_corrupt (t, op, r) ;
 	else if (kind == "crash") op_crash (t, op, r) ;
+	else if (kind == "bad") op_bad (t, op, r) ;
+	else if (kind == "badopen") op_badopen (t, op, r) ;
 	else r.skipped = true ;
 	res.transcript [t.id].push_back (r) ;
+	if (tasks.size () > 1) check_isolation (t) ;
 	t.pc ++ ;
 	return true ;
 }
